@@ -30,21 +30,28 @@ type Case struct {
 	Mode    int    `json:"mode"`
 	// Schemas: 2 = the tables are spread over two schemas (table i lives in schema s<i%2> and is
 	// named t<i/2>, so tables 0 and 1 share a name); statements are then schema-qualified.
+	// 3 = as 2, and a schema that holds no table in the desired state is dropped (DropSchema).
 	Schemas int `json:"schemas,omitempty"`
+	// Retarget: a foreign key fk_i_j of a kept table i whose target j exists in the desired state points,
+	// in the current state, at another table (the lowest-numbered current table other than j, over
+	// the same column): the differ reports ModifyForeignKey (reference changed).
+	Retarget bool `json:"retarget,omitempty"`
 }
+
+func (c Case) two() bool { return c.Schemas >= 2 }
 
 func (c Case) sname(i int) string { return fmt.Sprintf("s%d", i%2) }
 
 // tid is the table's identity in the reference catalogue; tn its (unqualified) name.
 func (c Case) tn(i int) string {
-	if c.Schemas == 2 {
+	if c.two() {
 		return fmt.Sprintf("t%d", i/2)
 	}
 	return tname(i)
 }
 
 func (c Case) tid(i int) string {
-	if c.Schemas == 2 {
+	if c.two() {
 		return c.sname(i) + "." + c.tn(i)
 	}
 	return tname(i)
@@ -60,13 +67,25 @@ func build(c Case, dialect string) (cur, des *schema.Realm) {
 		}
 		return &schema.IntegerType{T: "bigint"}
 	}
-	mk := func(include func(i int) bool, edge func(i, j int) bool) *schema.Realm {
+	mk := func(include func(i int) bool, edge func(i, j int) bool, current bool) *schema.Realm {
 		s := schema.New("public")
 		r := schema.NewRealm(s)
 		var ss [2]*schema.Schema
-		if c.Schemas == 2 {
+		if c.two() {
 			ss[0], ss[1] = schema.New("s0"), schema.New("s1")
 			r = schema.NewRealm(ss[0], ss[1])
+			if c.Schemas == 3 && !current {
+				r = schema.NewRealm()
+				for k := 0; k < 2; k++ {
+					has := false
+					for i := 0; i < c.N; i++ {
+						has = has || (i%2 == k && include(i))
+					}
+					if has {
+						r.AddSchemas(ss[k])
+					}
+				}
+			}
 		}
 		tabs := make([]*schema.Table, c.N)
 		for i := 0; i < c.N; i++ {
@@ -81,7 +100,7 @@ func build(c Case, dialect string) (cur, des *schema.Realm) {
 			}
 			t.SetPrimaryKey(schema.NewPrimaryKey(id))
 			tabs[i] = t
-			if c.Schemas == 2 {
+			if c.two() {
 				ss[i%2].AddTables(t)
 			} else {
 				s.AddTables(t)
@@ -89,21 +108,43 @@ func build(c Case, dialect string) (cur, des *schema.Realm) {
 		}
 		for i := 0; i < c.N; i++ {
 			for j := 0; j < c.N; j++ {
-				if tabs[i] == nil || tabs[j] == nil || c.Graph&(1<<uint(i*c.N+j)) == 0 || !edge(i, j) {
+				if tabs[i] == nil || c.Graph&(1<<uint(i*c.N+j)) == 0 || !edge(i, j) {
+					continue
+				}
+				tj := j
+				if current && c.Retarget && c.Split[i] == 0 {
+					if a := c.alt(j); a >= 0 {
+						tj = a
+					}
+				}
+				if tabs[tj] == nil {
 					continue
 				}
 				col, _ := tabs[i].Column(fmt.Sprintf("r%d", j))
-				rid, _ := tabs[j].Column("id")
+				rid, _ := tabs[tj].Column("id")
 				tabs[i].AddForeignKeys(&schema.ForeignKey{Symbol: fmt.Sprintf("fk_%d_%d", i, j), Table: tabs[i], Columns: []*schema.Column{col},
-					RefTable: tabs[j], RefColumns: []*schema.Column{rid}, OnDelete: schema.NoAction, OnUpdate: schema.NoAction})
+					RefTable: tabs[tj], RefColumns: []*schema.Column{rid}, OnDelete: schema.NoAction, OnUpdate: schema.NoAction})
 			}
 		}
 		return r
 	}
 	kept := func(i int) bool { return c.Split[i] == 0 }
-	cur = mk(func(i int) bool { return c.Split[i] != 1 }, func(i, j int) bool { return !(kept(i) && kept(j)) || c.KK != 1 })
-	des = mk(func(i int) bool { return c.Split[i] != 2 }, func(i, j int) bool { return !(kept(i) && kept(j)) || c.KK != 2 })
+	cur = mk(func(i int) bool { return c.Split[i] != 1 }, func(i, j int) bool { return !(kept(i) && kept(j)) || c.KK != 1 }, true)
+	des = mk(func(i int) bool { return c.Split[i] != 2 }, func(i, j int) bool { return !(kept(i) && kept(j)) || c.KK != 2 }, false)
 	return
+}
+
+// alt is the table a retargeted foreign key to table j points at in the current state (-1: none).
+func (c Case) alt(j int) int {
+	if c.Split[j] == 2 {
+		return -1 // the key disappears with its target; nothing to retarget
+	}
+	for a := 0; a < c.N; a++ {
+		if a != j && c.Split[a] != 1 {
+			return a
+		}
+	}
+	return -1
 }
 
 var (
@@ -115,6 +156,7 @@ var (
 	reAddFK    = regexp.MustCompile("CONSTRAINT [`\"](fk_\\d+_\\d+)[`\"] FOREIGN KEY \\([^)]*\\) REFERENCES " + qid)
 	reDropFK   = regexp.MustCompile("DROP (?:FOREIGN KEY|CONSTRAINT) [`\"](fk_\\d+_\\d+)[`\"]")
 	reDropList = regexp.MustCompile(qid)
+	reDropSch  = regexp.MustCompile("^DROP (?:DATABASE|SCHEMA) (?:IF EXISTS )?[`\"](\\w+)[`\"]")
 )
 
 // ident removes the quotes of a (possibly schema-qualified) identifier: `s0`.`t0` -> s0.t0
@@ -133,7 +175,7 @@ func replay(c Case, stmts []string) (problems []string) {
 	}
 	cur, des := build(c, c.Dialect)
 	tidOf := func(t *schema.Table) string {
-		if c.Schemas == 2 {
+		if c.two() {
 			return t.Schema.Name + "." + t.Name
 		}
 		return t.Name
@@ -179,6 +221,24 @@ func replay(c Case, stmts []string) (problems []string) {
 					}
 				}
 				delete(exists, x)
+			}
+		case reDropSch.MatchString(s):
+			// every table of the schema goes with it.
+			sc := reDropSch.FindStringSubmatch(s)[1] + "."
+			for fk, tr := range live {
+				if strings.HasPrefix(tr[1], sc) && !strings.HasPrefix(tr[0], sc) {
+					bad("stmt %d drops schema %s while foreign key %s of table %s still points at its table %s", k, strings.TrimSuffix(sc, "."), fk, tr[0], tr[1])
+				}
+			}
+			for fk, tr := range live {
+				if strings.HasPrefix(tr[0], sc) || strings.HasPrefix(tr[1], sc) {
+					delete(live, fk)
+				}
+			}
+			for x := range exists {
+				if strings.HasPrefix(x, sc) {
+					delete(exists, x)
+				}
 			}
 		case reAlter.MatchString(s):
 			x := ident(reAlter.FindStringSubmatch(s)[1])
@@ -261,7 +321,7 @@ func Eval(c Case) (problems []string, stmts []string) {
 	}
 	var changes []schema.Change
 	var err error
-	if c.Schemas == 2 {
+	if c.two() {
 		changes, err = differ.RealmDiff(cur, des, schema.DiffNormalized())
 	} else {
 		changes, err = differ.SchemaDiff(cur.Schemas[0], des.Schemas[0], schema.DiffNormalized())
@@ -274,7 +334,7 @@ func Eval(c Case) (problems []string, stmts []string) {
 	}
 	popt := func(o *migrate.PlanOptions) {
 		o.Mode = migrate.PlanMode(c.Mode)
-		if c.Schemas != 2 {
+		if !c.two() {
 			o.SchemaQualifier = new(string)
 		}
 	}
@@ -385,21 +445,29 @@ func Run(r *report.Run) {
 						if mi == 0 && j.n >= 2 && j.n <= 3 {
 							layouts = []int{0, 2}
 						}
+						if mi == 0 && j.n >= 2 && j.n <= 3 && dropsSchema(sp) {
+							layouts = append(layouts, 3)
+						}
 						for _, lay := range layouts {
-							c := Case{N: j.n, Graph: j.graph, Split: append([]int(nil), sp...), KK: kk, Dialect: d, Mode: m, Schemas: lay}
-							key := fmt.Sprintf("%d-%v", w, c)
-							cur.Store(key, time.Now())
-							problems, stmts := Eval(c)
-							cur.Delete(key)
-							plans.Add(1)
-							if len(stmts) > 0 {
-								nonEmpty.Add(1)
-							}
-							if len(problems) > 0 {
-								r.Violate("", fmt.Sprintf("n=%d graph=%s split=%v kk=%d %s mode=%d schemas=%d: %s\n    plan: %s", c.N, edges(c), c.Split, c.KK, c.Dialect, c.Mode, c.Schemas, strings.Join(problems, " | "), strings.Join(stmts, ";\n          ")), c)
-							}
-							if j.n == 3 && j.graph == 0b010001100 && kk == 1 && d == "postgres" && m == 0 && sp[0] == 0 && sp[1] == 1 && sp[2] == 2 {
-								r.Sample(map[string]any{"case": c, "edges": edges(c), "plan": stmts})
+							for _, rt := range []bool{false, true} {
+								if rt && (kk != 0 || mi != 0 || j.n > 3 || nk == 0 || lay == 3) {
+									continue
+								}
+								c := Case{N: j.n, Graph: j.graph, Split: append([]int(nil), sp...), KK: kk, Dialect: d, Mode: m, Schemas: lay, Retarget: rt}
+								key := fmt.Sprintf("%d-%v", w, c)
+								cur.Store(key, time.Now())
+								problems, stmts := Eval(c)
+								cur.Delete(key)
+								plans.Add(1)
+								if len(stmts) > 0 {
+									nonEmpty.Add(1)
+								}
+								if len(problems) > 0 {
+									r.Violate(classify(c, problems), fmt.Sprintf("n=%d graph=%s split=%v kk=%d retarget=%v %s mode=%d schemas=%d: %s\n    plan: %s", c.N, edges(c), c.Split, c.KK, c.Retarget, c.Dialect, c.Mode, c.Schemas, strings.Join(problems, " | "), strings.Join(stmts, ";\n          ")), c)
+								}
+								if j.n == 3 && j.graph == 0b010001100 && kk == 1 && d == "postgres" && m == 0 && sp[0] == 0 && sp[1] == 1 && sp[2] == 2 {
+									r.Sample(map[string]any{"case": c, "edges": edges(c), "plan": stmts})
+								}
 							}
 						}
 					}
@@ -414,6 +482,58 @@ func Run(r *report.Run) {
 	r.AddEvals(-nonEmpty.Load())
 	r.Set("graphs", len(jobs))
 	r.Set("plans", plans.Load())
+}
+
+var (
+	reSchemaFirst = regexp.MustCompile(`^(?:second plan: )?stmt \d+ drops schema s\d while foreign key (fk_\d+_\d+) of table \S+ still points at its table \S+$`)
+	reNotLive     = regexp.MustCompile(`^(?:second plan: )?stmt \d+ drops foreign key (fk_\d+_\d+) which is not live$`)
+)
+
+// classify names the known finding a failing case belongs to ("" = none): the planners emit
+// DROP DATABASE / DROP SCHEMA ... CASCADE before the table changes, so a foreign key that points
+// into the dropped schema from a table of another schema is still there (MySQL refuses the drop;
+// PostgreSQL removes the key by CASCADE and the later DROP CONSTRAINT fails). Only cases that drop
+// a schema, and in which every problem is this one or its direct consequence, are classified.
+func classify(c Case, problems []string) string {
+	if c.Schemas != 3 {
+		return ""
+	}
+	into := map[string]bool{}
+	for _, p := range problems {
+		if m := reSchemaFirst.FindStringSubmatch(p); m != nil {
+			into[m[1]] = true
+		}
+	}
+	for _, p := range problems {
+		if reSchemaFirst.MatchString(p) {
+			continue
+		}
+		if m := reNotLive.FindStringSubmatch(p); m != nil && into[m[1]] {
+			continue
+		}
+		return ""
+	}
+	if len(into) == 0 {
+		return ""
+	}
+	return "schema-dropped-before-the-foreign-keys-pointing-into-it"
+}
+
+// dropsSchema: in the two-schema layout one schema holds tables now and none in the desired state.
+func dropsSchema(sp []int) bool {
+	for k := 0; k < 2; k++ {
+		now, then := false, false
+		for i, s := range sp {
+			if i%2 == k {
+				now = now || s != 1
+				then = then || s != 2
+			}
+		}
+		if now && !then {
+			return true
+		}
+	}
+	return false
 }
 
 func edges(c Case) string {
